@@ -13,7 +13,7 @@
 From Coq Require Import List NArith Bool String.
 From FIM Require Import Base.Str Gen.T9Names Model.T9Graph Model.T9Ops Model.T9Check
      Proofs.T9Monad Proofs.T9Simple Proofs.T9Ext Proofs.T9Connect Proofs.T9Refuted Proofs.T9Atomic
-     Proofs.T9Facility Proofs.T9Peer Proofs.T9Component Proofs.T9CompFresh Proofs.T9Final Proofs.T9More.
+     Proofs.T9Facility Proofs.T9Peer Proofs.T9Component Proofs.T9CompFresh Proofs.T9Final Proofs.T9More Proofs.T9Handles.
 Import ListNotations.
 Open Scope N_scope.
 
@@ -314,3 +314,47 @@ Theorem C09_connect_interface_atomic_refuted :
     op_connect false fl ns i (mkSt g fresh) = (s', Err EValue) /\ sg s' <> g.
 Proof. exact connect_atomic_refuted. Qed.
 Print Assumptions C09_connect_interface_atomic_refuted.
+
+(* ==== handles that may be stale ====
+   NetworkService.add_interface (and peer, which calls it on both services) checks the name against the names CACHED
+   in the handle and reads nothing from the graph before it writes.  `parent_check` = does the running library's
+   add_interface_sliver look the parent up before it adds the ConnectionPoint (proposed_fixes/C09-8.patch). *)
+Theorem C09_add_interface_any_handle_atomic_with_parent_check : forall fl ns cached name node_id itype pure s s' e,
+  add_interface_h true fl ns cached name node_id itype pure s = (s', Err e) -> sg s' = sg s.
+Proof. exact add_interface_h_pc_all. Qed.
+Print Assumptions C09_add_interface_any_handle_atomic_with_parent_check.
+Example C09_add_interface_any_handle_atomic_with_parent_check_ex :
+  let r := add_interface_h true Experiment 77 [] (S "p9") None (Some tFacilityPort) None (mkSt g_two_nodes supply) in
+  snd r = Err EQuery /\ sg (fst r) = g_two_nodes.
+Proof. exact ex_add_interface_stale_pc. Qed.
+
+(* either way atomic when the service the handle names is in the graph *)
+Theorem C09_add_interface_any_handle_atomic_partial : forall pc fl ns cached name node_id itype pure s s' e,
+  (exists n, find_node (sg s) ns = Ok n) ->
+  add_interface_h pc fl ns cached name node_id itype pure s = (s', Err e) -> sg s' = sg s.
+Proof. exact add_interface_h_found_all. Qed.
+Print Assumptions C09_add_interface_any_handle_atomic_partial.
+
+(* without the look-up the full statement is FALSE: the stale handle of a removed service leaves an orphan port *)
+Theorem C09_add_interface_stale_handle_refuted :
+  exists fl ns cached name nid ty pure g fresh s' e,
+    wf_graph g = true /\ add_interface_h false fl ns cached name nid ty pure (mkSt g fresh) = (s', Err e) /\ sg s' <> g.
+Proof. exact add_interface_stale_refuted. Qed.
+Print Assumptions C09_add_interface_stale_handle_refuted.
+
+(* peer through any two handles of two NetworkService nodes of the graph: atomic, with or without the look-up *)
+Theorem C09_peer_any_handles_atomic : forall pc fl a an ca b bn cb pure g fresh s' e,
+  wf_graph g = true -> node_cls g a = Ok cNS -> node_cls g b = Ok cNS ->
+  op_peer_h pc fl a an ca b bn cb pure (mkSt g fresh) = (s', Err e) -> sg s' = g.
+Proof. exact peer_h_atomic. Qed.
+Print Assumptions C09_peer_any_handles_atomic.
+(* ... and FALSE without the look-up when one handle is stale *)
+Theorem C09_peer_stale_handle_refuted :
+  exists fl a an ca b bn cb pure g fresh s' e,
+    wf_graph g = true /\ op_peer_h false fl a an ca b bn cb pure (mkSt g fresh) = (s', Err e) /\ sg s' <> g.
+Proof. exact peer_stale_refuted. Qed.
+Print Assumptions C09_peer_stale_handle_refuted.
+Example C09_peer_stale_handle_with_parent_check_ex :
+  let r := op_peer_h true Experiment 30 (S "a") [] 77 (S "gone") [] None (mkSt g_two_services supply) in
+  snd r = Err EQuery /\ sg (fst r) = g_two_services.
+Proof. exact ex_peer_stale_pc. Qed.
